@@ -12,6 +12,7 @@ open Allfed Allfed.LP Allfed.AllocLP Allfed.PhysSpec Allfed.Perturb Allfed.Proof
 
 set_option linter.unusedSectionVars false
 set_option linter.unusedVariables false
+set_option linter.unusedSimpArgs false
 
 variable {K : Type} [Field K] [LinearOrder K] [IsStrictOrderedRing K]
 
@@ -682,6 +683,309 @@ theorem mono_cropProd (i : Inp K) (prod' : List K) (hp : SeriesLe i.cropProd pro
   · intro m hm
     exact le_trans (h.objective m hm) (hcons m)
 
+/-! ### the feed and biofuel charge -/
+
+section Charge
+
+/-- stored food no longer fed to animals / turned into biofuel in month `m` -/
+def freedStored (x : Var → K) (lam mu : Nat → K) (m : Nat) : K :=
+  (1 - lam m) * x (.mv .sfFeed m) + (1 - mu m) * x (.mv .sfBiofuel m)
+
+def freedCrops (x : Var → K) (lam mu : Nat → K) (m : Nat) : K :=
+  (1 - lam m) * x (.mv .cropFeed m) + (1 - mu m) * x (.mv .cropBiofuel m)
+
+/-- what people get more in month `m` (billion kcals) -/
+def gain (i : Inp K) (x : Var → K) (lam mu : Nat → K) (m : Nat) : K :=
+  (if i.addStored = true then freedStored x lam mu m * keep i.wStored else 0)
+    + (if i.addOutdoor = true then freedCrops x lam mu m * keep i.wCrop else 0)
+
+/-- every feed variable of month `m` scaled by `lam m`, every biofuel variable by `mu m`; the freed
+    stored food and crops go to people in the same month, freed SCP and sugar are dropped -/
+def recharge (i : Inp K) (x : Var → K) (lam mu : Nat → K) : Var → K
+  | .mv .sfFeed m => lam m * x (.mv .sfFeed m)
+  | .mv .sfBiofuel m => mu m * x (.mv .sfBiofuel m)
+  | .mv .cropFeed m => lam m * x (.mv .cropFeed m)
+  | .mv .cropBiofuel m => mu m * x (.mv .cropBiofuel m)
+  | .mv .scpFeed m => lam m * x (.mv .scpFeed m)
+  | .mv .scpBiofuel m => mu m * x (.mv .scpBiofuel m)
+  | .mv .csFeed m => lam m * x (.mv .csFeed m)
+  | .mv .csBiofuel m => mu m * x (.mv .csBiofuel m)
+  | .mv .sfHumans m => x (.mv .sfHumans m) + freedStored x lam mu m * keep i.wStored
+  | .mv .cropHumans m => x (.mv .cropHumans m) + freedCrops x lam mu m * keep i.wCrop
+  | .mv .consumedKcals m => x (.mv .consumedKcals m) + gain i x lam mu m / i.billionKcalsNeeded * 100
+  | v => x v
+
+variable {i : Inp K} {x : Var → K} {lam mu : Nat → K} {m : Nat}
+
+theorem rc_sfStart : recharge i x lam mu (.mv .sfStart m) = x (.mv .sfStart m) := rfl
+theorem rc_sfEnd : recharge i x lam mu (.mv .sfEnd m) = x (.mv .sfEnd m) := rfl
+theorem rc_sfHumans : recharge i x lam mu (.mv .sfHumans m) = x (.mv .sfHumans m) + freedStored x lam mu m * keep i.wStored := rfl
+theorem rc_sfFeed : recharge i x lam mu (.mv .sfFeed m) = lam m * x (.mv .sfFeed m) := rfl
+theorem rc_sfBiofuel : recharge i x lam mu (.mv .sfBiofuel m) = mu m * x (.mv .sfBiofuel m) := rfl
+theorem rc_scpHumans : recharge i x lam mu (.mv .scpHumans m) = x (.mv .scpHumans m) := rfl
+theorem rc_scpFeed : recharge i x lam mu (.mv .scpFeed m) = lam m * x (.mv .scpFeed m) := rfl
+theorem rc_scpBiofuel : recharge i x lam mu (.mv .scpBiofuel m) = mu m * x (.mv .scpBiofuel m) := rfl
+theorem rc_csHumans : recharge i x lam mu (.mv .csHumans m) = x (.mv .csHumans m) := rfl
+theorem rc_csFeed : recharge i x lam mu (.mv .csFeed m) = lam m * x (.mv .csFeed m) := rfl
+theorem rc_csBiofuel : recharge i x lam mu (.mv .csBiofuel m) = mu m * x (.mv .csBiofuel m) := rfl
+theorem rc_meatStart : recharge i x lam mu (.mv .meatStart m) = x (.mv .meatStart m) := rfl
+theorem rc_meatEnd : recharge i x lam mu (.mv .meatEnd m) = x (.mv .meatEnd m) := rfl
+theorem rc_meatEaten : recharge i x lam mu (.mv .meatEaten m) = x (.mv .meatEaten m) := rfl
+theorem rc_cropStorage : recharge i x lam mu (.mv .cropStorage m) = x (.mv .cropStorage m) := rfl
+theorem rc_cropConsumed : recharge i x lam mu (.mv .cropConsumed m) = x (.mv .cropConsumed m) := rfl
+theorem rc_cropHumans : recharge i x lam mu (.mv .cropHumans m) = x (.mv .cropHumans m) + freedCrops x lam mu m * keep i.wCrop := rfl
+theorem rc_cropFeed : recharge i x lam mu (.mv .cropFeed m) = lam m * x (.mv .cropFeed m) := rfl
+theorem rc_cropBiofuel : recharge i x lam mu (.mv .cropBiofuel m) = mu m * x (.mv .cropBiofuel m) := rfl
+theorem rc_swWet : recharge i x lam mu (.mv .swWet m) = x (.mv .swWet m) := rfl
+theorem rc_swHumans : recharge i x lam mu (.mv .swHumans m) = x (.mv .swHumans m) := rfl
+theorem rc_swFeed : recharge i x lam mu (.mv .swFeed m) = x (.mv .swFeed m) := rfl
+theorem rc_swBiofuel : recharge i x lam mu (.mv .swBiofuel m) = x (.mv .swBiofuel m) := rfl
+theorem rc_usedArea : recharge i x lam mu (.mv .usedArea m) = x (.mv .usedArea m) := rfl
+theorem rc_consumedKcals : recharge i x lam mu (.mv .consumedKcals m) = x (.mv .consumedKcals m) + gain i x lam mu m / i.billionKcalsNeeded * 100 := rfl
+
+/-- the share `a / b` of a lowered charge `0 ≤ a ≤ b` -/
+theorem share_spec {a b : K} (h0 : 0 ≤ a) (h1 : a ≤ b) : 0 ≤ a / b ∧ a / b ≤ 1 ∧ a / b * b = a := by
+  rcases eq_or_lt_of_le (le_trans h0 h1) with hb | hb
+  · have ha : a = 0 := le_antisymm (hb ▸ h1) h0
+    rw [← hb, ha, div_zero]
+    exact ⟨le_rfl, zero_le_one, by ring⟩
+  · exact ⟨div_nonneg h0 hb.le, (div_le_one hb).mpr h1, div_mul_cancel₀ a hb.ne'⟩
+
+theorem X_mul (x x' : Var → K) (on : Bool) (k : VK) (m : Nat) (c : K)
+    (h : x' (.mv k m) = c * x (.mv k m)) : X x' on k m = c * X x on k m := by
+  unfold X
+  cases on
+  · simp only [Bool.false_eq_true, if_false, mul_zero]
+  · simp only [if_true, h]
+
+end Charge
+
+theorem charge_antitone_partial (i : Inp K) (feed' biofuel' : List K) (hs : i.addSeaweed = false)
+    (hf : SeriesLe feed' i.feed) (hb : SeriesLe biofuel' i.biofuel)
+    (hf0 : ∀ m, 0 ≤ at' feed' m) (hb0 : ∀ m, 0 ≤ at' biofuel' m)
+    (hwS0 : 0 ≤ i.wStored) (hwS : i.wStored < 100) (hwC0 : 0 ≤ i.wCrop) (hwC : i.wCrop < 100)
+    (hbkn : 0 < i.billionKcalsNeeded) (hlim : 0 ≤ i.limScpH ∧ 0 ≤ i.limCsH)
+    (x : Var → K) (h : Feasible (buildLP i .toHumans) x) :
+    ∃ x', Feasible (buildLP { i with feed := feed', biofuel := biofuel' } .toHumans) x' ∧
+      x .objective ≤ x' .objective := by
+  rw [feasible_toHumans_iff] at h
+  let lam : Nat → K := fun m => at' feed' m / at' i.feed m
+  let mu : Nat → K := fun m => at' biofuel' m / at' i.biofuel m
+  have hl : ∀ m, 0 ≤ lam m ∧ lam m ≤ 1 ∧ lam m * at' i.feed m = at' feed' m :=
+    fun m => share_spec (hf0 m) (hf m)
+  have hmu : ∀ m, 0 ≤ mu m ∧ mu m ≤ 1 ∧ mu m * at' i.biofuel m = at' biofuel' m :=
+    fun m => share_spec (hb0 m) (hb m)
+  have hkS := keep_pos hwS
+  have hkC := keep_pos hwC
+  have hfs : ∀ m, 0 ≤ freedStored x lam mu m := fun m =>
+    add_nonneg (mul_nonneg (sub_nonneg.mpr (hl m).2.1) (h.nonneg _))
+      (mul_nonneg (sub_nonneg.mpr (hmu m).2.1) (h.nonneg _))
+  have hfc : ∀ m, 0 ≤ freedCrops x lam mu m := fun m =>
+    add_nonneg (mul_nonneg (sub_nonneg.mpr (hl m).2.1) (h.nonneg _))
+      (mul_nonneg (sub_nonneg.mpr (hmu m).2.1) (h.nonneg _))
+  have hgain : ∀ m, 0 ≤ gain i x lam mu m := by
+    intro m
+    unfold gain
+    refine add_nonneg ?_ ?_ <;> split_ifs
+    · exact mul_nonneg (hfs m) hkS.le
+    · exact le_rfl
+    · exact mul_nonneg (hfc m) hkC.le
+    · exact le_rfl
+  have hcons : ∀ m, x (.mv .consumedKcals m) ≤ recharge i x lam mu (.mv .consumedKcals m) := by
+    intro m
+    rw [rc_consumedKcals]
+    exact le_add_of_nonneg_right (mul_nonneg (div_nonneg (hgain m) hbkn.le) (by norm_num))
+  refine ⟨recharge i x lam mu, feasible_toHumans_iff.mpr ?_, le_rfl⟩
+  refine ⟨?_, h.seaweed, ?_, ?_, h.meat, ?_, ?_, ?_, ?_⟩
+  · intro v
+    cases v with
+    | mv k m =>
+      cases k <;> first
+        | exact h.nonneg _
+        | exact mul_nonneg (hl m).1 (h.nonneg _)
+        | exact mul_nonneg (hmu m).1 (h.nonneg _)
+        | exact add_nonneg (h.nonneg _) (mul_nonneg (hfs m) hkS.le)
+        | exact add_nonneg (h.nonneg _) (mul_nonneg (hfc m) hkC.le)
+        | exact add_nonneg (h.nonneg _)
+            (mul_nonneg (div_nonneg (hgain m) hbkn.le) (by norm_num))
+    | objective => exact h.nonneg _
+    | objectiveBest => exact h.nonneg _
+  · -- crops: what is no longer fed or burnt is eaten, so the same amount is consumed
+    intro hon m hm
+    obtain ⟨H1, H2⟩ := h.crops hon m hm
+    change CropSpec i (recharge i x lam mu) m
+    unfold CropSpec
+    simp only [rc_sfStart, rc_sfEnd, rc_sfHumans, rc_sfFeed, rc_sfBiofuel, rc_scpHumans, rc_scpFeed, rc_scpBiofuel, rc_csHumans, rc_csFeed, rc_csBiofuel, rc_meatStart, rc_meatEnd, rc_meatEaten, rc_cropStorage, rc_cropConsumed, rc_cropHumans, rc_cropFeed, rc_cropBiofuel, rc_swWet, rc_swHumans, rc_swFeed, rc_swBiofuel, rc_usedArea, rc_consumedKcals]
+    refine ⟨?_, H2⟩
+    rw [grossUp_add_keep hwC, H1]
+    unfold freedCrops
+    ring
+  · -- stored food likewise
+    intro hon m hm
+    have H := h.stored hon m hm
+    change StoredSpec i (recharge i x lam mu) m
+    have hE : StoredEatenEq i x m → StoredEatenEq i (recharge i x lam mu) m := by
+      intro hE
+      unfold StoredEatenEq at hE ⊢
+      simp only [rc_sfStart, rc_sfEnd, rc_sfHumans, rc_sfFeed, rc_sfBiofuel, rc_scpHumans, rc_scpFeed, rc_scpBiofuel, rc_csHumans, rc_csFeed, rc_csBiofuel, rc_meatStart, rc_meatEnd, rc_meatEaten, rc_cropStorage, rc_cropConsumed, rc_cropHumans, rc_cropFeed, rc_cropBiofuel, rc_swWet, rc_swHumans, rc_swFeed, rc_swBiofuel, rc_usedArea, rc_consumedKcals]
+      rw [grossUp_add_keep hwS, hE]
+      unfold freedStored
+      ring
+    have hE0 : StoredEatenEq i x 0 → StoredEatenEq i (recharge i x lam mu) 0 := by
+      intro hE
+      unfold StoredEatenEq at hE ⊢
+      simp only [rc_sfStart, rc_sfEnd, rc_sfHumans, rc_sfFeed, rc_sfBiofuel, rc_scpHumans, rc_scpFeed, rc_scpBiofuel, rc_csHumans, rc_csFeed, rc_csBiofuel, rc_meatStart, rc_meatEnd, rc_meatEaten, rc_cropStorage, rc_cropConsumed, rc_cropHumans, rc_cropFeed, rc_cropBiofuel, rc_swWet, rc_swHumans, rc_swFeed, rc_swBiofuel, rc_usedArea, rc_consumedKcals]
+      rw [grossUp_add_keep hwS, hE]
+      unfold freedStored
+      ring
+    unfold StoredSpec at H ⊢
+    simp only [rc_sfStart, rc_sfEnd, rc_sfHumans, rc_sfFeed, rc_sfBiofuel, rc_scpHumans, rc_scpFeed, rc_scpBiofuel, rc_csHumans, rc_csFeed, rc_csBiofuel, rc_meatStart, rc_meatEnd, rc_meatEaten, rc_cropStorage, rc_cropConsumed, rc_cropHumans, rc_cropFeed, rc_cropBiofuel, rc_swWet, rc_swHumans, rc_swFeed, rc_swBiofuel, rc_usedArea, rc_consumedKcals] at H ⊢
+    split_ifs at H ⊢
+    · exact ⟨H.1, hE H.2⟩
+    · exact ⟨H.1, hE H.2⟩
+    · exact ⟨H.1, hE H.2⟩
+    · exact ⟨H.1, hE0 H.2⟩
+    · obtain ⟨e1, e2, e3, e4⟩ := H
+      unfold freedStored
+      rw [e1, e2, e3]
+      exact ⟨by ring, by ring, by ring, e4⟩
+    · exact ⟨hE H.1, H.2⟩
+  · -- SCP
+    intro hon m hm
+    have H := h.scp hon m hm
+    change scpUse i (recharge i x lam mu) m ≤ at' i.scp m
+    unfold scpUse at H ⊢
+    simp only [rc_sfStart, rc_sfEnd, rc_sfHumans, rc_sfFeed, rc_sfBiofuel, rc_scpHumans, rc_scpFeed, rc_scpBiofuel, rc_csHumans, rc_csFeed, rc_csBiofuel, rc_meatStart, rc_meatEnd, rc_meatEaten, rc_cropStorage, rc_cropConsumed, rc_cropHumans, rc_cropFeed, rc_cropBiofuel, rc_swWet, rc_swHumans, rc_swFeed, rc_swBiofuel, rc_usedArea, rc_consumedKcals]
+    have h1 := mul_le_of_le_one_left (h.nonneg (.mv .scpFeed m)) (hl m).2.1
+    have h2 := mul_le_of_le_one_left (h.nonneg (.mv .scpBiofuel m)) (hmu m).2.1
+    linarith
+  · -- cellulosic sugar
+    intro hon m hm
+    have H := h.cs hon m hm
+    change csUse i (recharge i x lam mu) m ≤ at' i.cs m
+    unfold csUse at H ⊢
+    simp only [rc_sfStart, rc_sfEnd, rc_sfHumans, rc_sfFeed, rc_sfBiofuel, rc_scpHumans, rc_scpFeed, rc_scpBiofuel, rc_csHumans, rc_csFeed, rc_csBiofuel, rc_meatStart, rc_meatEnd, rc_meatEaten, rc_cropStorage, rc_cropConsumed, rc_cropHumans, rc_cropFeed, rc_cropBiofuel, rc_swWet, rc_swHumans, rc_swFeed, rc_swBiofuel, rc_usedArea, rc_consumedKcals]
+    have h1 := mul_le_of_le_one_left (h.nonneg (.mv .csFeed m)) (hl m).2.1
+    have h2 := mul_le_of_le_one_left (h.nonneg (.mv .csBiofuel m)) (hmu m).2.1
+    linarith
+  · -- feed, biofuel, percent fed, intake caps
+    intro m hm
+    obtain ⟨H1, H2, H3, H4, H5⟩ := h.general m hm
+    refine ⟨?_, ?_, ?_, ?_, ?_⟩
+    · intro hany
+      obtain ⟨f1, f2⟩ := H1 hany
+      constructor
+      · show X (recharge i x lam mu) i.addStored .sfFeed m
+            + X (recharge i x lam mu) i.addOutdoor .cropFeed m
+            + X (recharge i x lam mu) i.addSeaweed .swFeed m * i.seaweedKcals
+            + X (recharge i x lam mu) i.addCs .csFeed m
+            + X (recharge i x lam mu) i.addScp .scpFeed m = at' feed' m
+        rw [X_mul x _ _ .sfFeed m (lam m) rfl, X_mul x _ _ .cropFeed m (lam m) rfl,
+          X_mul x _ _ .csFeed m (lam m) rfl, X_mul x _ _ .scpFeed m (lam m) rfl, ← (hl m).2.2, ← f1]
+        unfold feedTotal X
+        rw [hs]
+        simp only [Bool.false_eq_true, if_false]
+        ring
+      · show X (recharge i x lam mu) i.addStored .sfBiofuel m
+            + X (recharge i x lam mu) i.addOutdoor .cropBiofuel m
+            + X (recharge i x lam mu) i.addSeaweed .swBiofuel m * i.seaweedKcals
+            + X (recharge i x lam mu) i.addCs .csBiofuel m
+            + X (recharge i x lam mu) i.addScp .scpBiofuel m = at' biofuel' m
+        rw [X_mul x _ _ .sfBiofuel m (mu m) rfl, X_mul x _ _ .cropBiofuel m (mu m) rfl,
+          X_mul x _ _ .csBiofuel m (mu m) rfl, X_mul x _ _ .scpBiofuel m (mu m) rfl,
+          ← (hmu m).2.2, ← f2]
+        unfold biofuelTotal X
+        rw [hs]
+        simp only [Bool.false_eq_true, if_false]
+        ring
+    · show x (.mv .consumedKcals m) + gain i x lam mu m / i.billionKcalsNeeded * 100 =
+        (X (recharge i x lam mu) i.addStored .sfHumans m
+          + X (recharge i x lam mu) i.addOutdoor .cropHumans m
+          + X x i.addSeaweed .swHumans m * i.seaweedKcals + at' i.milk m + X x i.addMeat .meatEaten m
+          + X x i.addCs .csHumans m + X x i.addScp .scpHumans m + at' i.greenhouse m + at' i.fish m)
+          / i.billionKcalsNeeded * 100.0
+      have e1 : X (recharge i x lam mu) i.addStored .sfHumans m =
+          X x i.addStored .sfHumans m
+            + (if i.addStored = true then freedStored x lam mu m * keep i.wStored else 0) := by
+        unfold X
+        split_ifs
+        · rfl
+        · ring
+      have e2 : X (recharge i x lam mu) i.addOutdoor .cropHumans m =
+          X x i.addOutdoor .cropHumans m
+            + (if i.addOutdoor = true then freedCrops x lam mu m * keep i.wCrop else 0) := by
+        unfold X
+        split_ifs
+        · rfl
+        · ring
+      rw [H2, e1, e2, sci_100]
+      unfold humanTotal gain
+      ring
+    · intro hon
+      have : i.addSeaweed = true := hon
+      rw [hs] at this
+      exact absurd this (by decide)
+    · refine intake_of_le H4 rfl rfl rfl rfl (hcons m) hlim.1 hbkn.le ?_ ?_
+      · intro hon
+        have := mul_le_mul_of_nonneg_left (H4 hon).2.1 (hl m).1
+        show lam m * x (.mv .scpFeed m) * 1 ≤ i.limScpF / 100.0 * at' feed' m
+        rw [← (hl m).2.2]
+        generalize (100.0 : K) = c100 at *
+        linarith
+      · intro hon
+        have := mul_le_mul_of_nonneg_left (H4 hon).2.2 (hmu m).1
+        show mu m * x (.mv .scpBiofuel m) * 1 ≤ i.limScpB / 100.0 * at' biofuel' m
+        rw [← (hmu m).2.2]
+        generalize (100.0 : K) = c100 at *
+        linarith
+    · refine intake_of_le H5 rfl rfl rfl rfl (hcons m) hlim.2 hbkn.le ?_ ?_
+      · intro hon
+        have := mul_le_mul_of_nonneg_left (H5 hon).2.1 (hl m).1
+        show lam m * x (.mv .csFeed m) * 1 ≤ i.limCsF / 100.0 * at' feed' m
+        rw [← (hl m).2.2]
+        generalize (100.0 : K) = c100 at *
+        linarith
+      · intro hon
+        have := mul_le_mul_of_nonneg_left (H5 hon).2.2 (hmu m).1
+        show mu m * x (.mv .csBiofuel m) * 1 ≤ i.limCsB / 100.0 * at' biofuel' m
+        rw [← (hmu m).2.2]
+        generalize (100.0 : K) = c100 at *
+        linarith
+  · intro m hm
+    exact le_trans (h.objective m hm) (hcons m)
+
 end Mono
+
+/-! ## why the monotonicity theorems ask for non-negative human intake limits -/
+
+/-- SCP switched on with a *negative* human intake limit, nobody to feed (`pop = 0`) -/
+def negLimitInst : Inp ℚ := { emptyInst with nmonths := 2, addScp := true, limScpH := -100 }
+
+theorem negLimit_rows :
+    (buildLP negLimitInst .toHumans).all (holdsB (fun _ => 0)) = true := by decide +kernel
+
+/-- with a negative intake limit more milk makes the programme infeasible: the all-zero point is
+    feasible before, nothing is feasible after (`Limit_Reduced_Population_HUMANS` forces the SCP
+    eaten by people below `−percent fed`) -/
+theorem limits_needed_counterexample :
+    ∃ (i : Inp ℚ) (milk' : List ℚ) (x : Var → ℚ), SeriesLe i.milk milk' ∧
+      0 < i.billionKcalsNeeded ∧ Feasible (buildLP i .toHumans) x ∧
+      ¬ ∃ x', Feasible (buildLP { i with milk := milk' } .toHumans) x' := by
+  refine ⟨negLimitInst, [1], fun _ => 0, ?_, by decide +kernel,
+    ⟨rows_hold_of_all _ _ negLimit_rows, fun _ => le_rfl⟩, ?_⟩
+  · intro m
+    exact getD_nonneg [1] (by decide +kernel) m
+  · rintro ⟨x', hx'⟩
+    rw [feasible_toHumans_iff] at hx'
+    obtain ⟨-, H2, -, H4, -⟩ := hx'.general 0 (by decide)
+    have h4 := (H4 rfl).1.2
+    have hs := hx'.nonneg (.mv .scpHumans 0)
+    have hT : humanTotal { negLimitInst with milk := [1] } x' 0 = x' (.mv .scpHumans 0) + 1 := by
+      simp [humanTotal, X, negLimitInst, emptyInst, at']
+      ring
+    rw [hT] at H2
+    rw [H2] at h4
+    norm_num [negLimitInst, emptyInst] at h4
+    linarith
 
 end Allfed.Proofs.Perturb
